@@ -182,5 +182,21 @@ func HelloExtMutations(msg []byte, all bool) []HelloMutation {
 		add(append(append([]helloExt(nil), exts...), helloExt{t, nil}), true, "empty extension last")
 		add(append(append([]helloExt(nil), exts...), helloExt{t, []byte{0}}), true, "one-byte extension last")
 	}
+	// an extension the hello does NOT carry, appended with each of a catalogue of short bodies: list-shaped extensions
+	// whose list is empty, whose inner length is zero or overshoots, single bytes - the shortest bodies that pass each
+	// successive length test of a per-extension parser
+	have := map[uint16]bool{}
+	for _, e := range exts {
+		have[e.typ] = true
+	}
+	bodies := [][]byte{{0}, {0, 0}, {0, 0, 0}, {0, 1}, {0, 1, 0}, {0, 1, 1}, {0, 2, 0, 0}, {0, 2, 1, 'a'}, {0, 3, 2, 'h', '2'}, {1}, {1, 0}, {1, 1}, {0xff}, {0xff, 0xff}}
+	for _, t := range []uint16{0, 5, 10, 11, 13, 16, 18, 23, 35, 0x3374, 0xff01} {
+		if have[t] {
+			continue
+		}
+		for _, b := range bodies {
+			add(append(append([]helloExt(nil), exts...), helloExt{t, b}), true, "extension not in the hello, appended with a short body")
+		}
+	}
 	return out
 }
